@@ -107,9 +107,13 @@ func childSizesMsg(children []Box) string {
 // DecodeContainerChildren decodes a container box
 func DecodeContainerChildren(hdr BoxHeader, startPos, endPos uint64, r io.Reader) ([]Box, error) {
 	children := make([]Box, 0, 8)
+	// The callers give startPos for a compact box header, so compensate for a largesize header
+	startPos += uint64(hdr.Hdrlen - boxHeaderSize)
 	pos := startPos
+	// The children must not be read beyond the end of the container
+	lr := &io.LimitedReader{R: r, N: int64(endPos - startPos)}
 	for {
-		child, err := DecodeBox(pos, r)
+		child, err := DecodeBox(pos, lr)
 		if err == io.EOF {
 			return children, nil
 		}
@@ -118,6 +122,9 @@ func DecodeContainerChildren(hdr BoxHeader, startPos, endPos uint64, r io.Reader
 		}
 		children = append(children, child)
 		pos += child.Size()
+		if nrRead := int64(endPos-startPos) - lr.N; int64(pos-startPos) != nrRead {
+			return nil, fmt.Errorf("child %s size mismatch in %s: %d - %d", child.Type(), hdr.Name, pos-startPos, nrRead)
+		}
 		if pos == endPos {
 			return children, nil
 		} else if pos > endPos {
@@ -129,6 +136,8 @@ func DecodeContainerChildren(hdr BoxHeader, startPos, endPos uint64, r io.Reader
 // DecodeContainerChildren decodes a container box
 func DecodeContainerChildrenSR(hdr BoxHeader, startPos, endPos uint64, sr bits.SliceReader) ([]Box, error) {
 	children := make([]Box, 0, 8) // Good initial size
+	// The callers give startPos for a compact box header, so compensate for a largesize header
+	startPos += uint64(hdr.Hdrlen - boxHeaderSize)
 	pos := startPos
 	initPos := sr.GetPos()
 	for {
